@@ -1992,6 +1992,10 @@ func genC15(r *rng, p *plan.Plan) {
 	// (many queries behind one accept), otherwise one connection per query
 	lastConn := map[string]int{}
 	lastAt := map[string]int64{}
+	// an upstream outage: most exchanges fail (the server takes the query and
+	// drops the connection); a query answered SERVFAIL has been admitted and
+	// paid for all the same
+	outage := r.p(0.2)
 	add := func(src string, at int64, si int) {
 		srv := rp.Servers[si]
 		ci := len(rp.Conns)
@@ -2020,6 +2024,9 @@ func genC15(r *rng, p *plan.Plan) {
 		}
 		rp.Ops = append(rp.Ops, op)
 		rp.Tokens[tok] = &plan.TokenSpec{Ans: plan.AnswerSpec{NAn: 1, TTLs: []uint32{60}, Shape: "plain"}, Acts: []plan.UpAction{{Kind: "reply", DelayUs: r.i64(100, 5000)}}}
+		if outage && r.p(0.85) {
+			rp.Tokens[tok].Acts = []plan.UpAction{{Kind: []string{"fin", "rst"}[r.intn(2)], DelayUs: r.i64(100, 3000)}}
+		}
 	}
 	pickSrc := func(si int, v4, v6 []string) string {
 		l := rp.Servers[si].Listen
